@@ -613,10 +613,18 @@ def lncdf_check(z, fails, notes, extra_feats=None):
         return 0
     dtype = z.dtype
     fi = torch.finfo(dtype)
-    with torch.enable_grad():
-        zz = z.clone().requires_grad_(True)
-        out = log_normal_cdf(zz)
-        grad, = torch.autograd.grad(out, zz, torch.ones_like(out))
+    try:
+        with torch.enable_grad():
+            zz = z.clone().requires_grad_(True)
+            out = log_normal_cdf(zz)
+            grad, = torch.autograd.grad(out, zz, torch.ones_like(out))
+    except Exception as e:  # noqa: BLE001 -- an exception on finite input is a fail of the value sub-check, not of the harness
+        _add(fails, "lncdf-value", util.exc_str(e), f"{z.numel()} finite {dtype} inputs from {float(z.min())!r} to {float(z.max())!r}",
+             **dict(extra_feats or {}))
+        return 1
+    if out.shape != z.shape or grad.shape != z.shape or out.dtype != dtype:
+        _add(fails, "lncdf-value", f"result shape/dtype {tuple(out.shape)}/{out.dtype} for input {tuple(z.shape)}/{dtype}")
+        return 1
     o = out.detach().double().numpy()
     gr = grad.double().numpy()
     zd = z.double().numpy()
